@@ -125,12 +125,7 @@ func coqCond(c string) string {
 	return ""
 }
 
-func coqZ(n int) string {
-	if n < 0 {
-		return fmt.Sprintf("(- Z.of_nat %d%%nat)%%Z", -n)
-	}
-	return fmt.Sprintf("(Z.of_nat %d%%nat)", n)
-}
+func coqZ(n int) string { return fmt.Sprintf("(%d)%%Z", n) }
 
 func coqSid(s string) string { return hx.CoqBytes([]byte(s)) }
 
@@ -413,7 +408,7 @@ func (x *runner) runReceiver(c recvCase, origin string) bool {
 			} else {
 				rc.buf = nil
 			}
-			evTerms = append(evTerms, fmt.Sprintf("ERead %s %s", coqSid(sid), hx.CoqNat(e.N)))
+			evTerms = append(evTerms, fmt.Sprintf("ERead %s %s", coqSid(sid), coqBigNat(e.N)))
 			obsTerms = append(obsTerms, fmt.Sprintf("ORead %s %s", hx.CoqBytes(buf[:n]), hx.CoqBool(eof)))
 			classes = append(classes, "receiver/read")
 
